@@ -457,9 +457,13 @@ func (g *Generator) generateExampleSelectors(gf *protogen.GeneratedFile) {
 	gf.P("// selectIntExample selects a random example or returns a default value.")
 	gf.P("func selectIntExample(fieldPath string, defaultValue int64) int64 {")
 	gf.P("if examples, ok := fieldExamples[fieldPath]; ok && len(examples) > 0 {")
-	gf.P("example := examples[rand.Intn(len(examples))]")
+	gf.P("// start at a random example and take the first one that parses")
+	gf.P("start := rand.Intn(len(examples))")
+	gf.P("for i := range examples {")
+	gf.P("example := examples[(start+i)%len(examples)]")
 	gf.P("if v, err := strconv.ParseInt(example, 10, 64); err == nil {")
 	gf.P("return v")
+	gf.P("}")
 	gf.P("}")
 	gf.P("}")
 	gf.P("return defaultValue")
@@ -470,9 +474,13 @@ func (g *Generator) generateExampleSelectors(gf *protogen.GeneratedFile) {
 	gf.P("// selectBoolExample selects a random example or returns a default value.")
 	gf.P("func selectBoolExample(fieldPath string, defaultValue bool) bool {")
 	gf.P("if examples, ok := fieldExamples[fieldPath]; ok && len(examples) > 0 {")
-	gf.P("example := examples[rand.Intn(len(examples))]")
+	gf.P("// start at a random example and take the first one that parses")
+	gf.P("start := rand.Intn(len(examples))")
+	gf.P("for i := range examples {")
+	gf.P("example := examples[(start+i)%len(examples)]")
 	gf.P("if v, err := strconv.ParseBool(example); err == nil {")
 	gf.P("return v")
+	gf.P("}")
 	gf.P("}")
 	gf.P("}")
 	gf.P("return defaultValue")
@@ -483,9 +491,13 @@ func (g *Generator) generateExampleSelectors(gf *protogen.GeneratedFile) {
 	gf.P("// selectFloatExample selects a random example or returns a default value.")
 	gf.P("func selectFloatExample(fieldPath string, defaultValue float64) float64 {")
 	gf.P("if examples, ok := fieldExamples[fieldPath]; ok && len(examples) > 0 {")
-	gf.P("example := examples[rand.Intn(len(examples))]")
+	gf.P("// start at a random example and take the first one that parses")
+	gf.P("start := rand.Intn(len(examples))")
+	gf.P("for i := range examples {")
+	gf.P("example := examples[(start+i)%len(examples)]")
 	gf.P("if v, err := strconv.ParseFloat(example, 64); err == nil {")
 	gf.P("return v")
+	gf.P("}")
 	gf.P("}")
 	gf.P("}")
 	gf.P("return defaultValue")
